@@ -127,6 +127,77 @@ fn single(base: &SPDC, path: &str, v: f64) -> Result<SPDC, String> {
   it.into_iter().next().ok_or_else(|| "empty sweep".to_string())
 }
 
+/// The property's reading of a path, written directly against the public API (no get_setter): used to build the
+/// "individually constructed" setups.  THz = 1e12 cycles per second: lambda = c / nu.
+fn spec_apply(spdc: &mut SPDC, path: &str, v: f64) -> bool {
+  let (head, tail) = match path.split_once('.') {
+    Some(x) => x,
+    None => ("", path),
+  };
+  match (head, tail) {
+    ("crystal", "phi_deg") => spdc.crystal_setup.phi = v * DEG,
+    ("crystal", "theta_deg") => spdc.crystal_setup.theta = v * DEG,
+    ("crystal", "length_um") => spdc.crystal_setup.length = v * 1e-6 * M,
+    ("crystal", "temperature_c") => spdc.crystal_setup.temperature = (v + 273.15) * K,
+    ("pump", "average_power_mw") => spdc.pump_average_power = v * 1e-3 * W,
+    ("pump", "bandwidth_nm") => spdc.pump_bandwidth = v * 1e-9 * M,
+    ("signal", "waist_position_um") => spdc.signal_waist_position = v * 1e-6 * M,
+    ("idler", "waist_position_um") => spdc.idler_waist_position = v * 1e-6 * M,
+    ("", "deff_pm_per_volt") => spdc.deff = v * 1e-12 * M / V,
+    ("periodic_poling", "poling_period_um") => {
+      let sign = PeriodicPoling::compute_sign(&spdc.signal, &spdc.pump, &spdc.crystal_setup);
+      let signed = if sign == Sign::POSITIVE { v.abs() } else { -v.abs() };
+      spdc.pp = spdc.pp.clone().with_period(signed * 1e-6 * M);
+    }
+    ("signal", _) | ("idler", _) | ("pump", _) => {
+      let crystal = spdc.crystal_setup.clone();
+      let b: &mut spdcalc::prelude::Beam = match head {
+        "signal" => &mut spdc.signal,
+        "idler" => &mut spdc.idler,
+        _ => &mut spdc.pump,
+      };
+      match tail {
+        "theta_deg" if head != "pump" => {
+          b.set_theta_internal(v * DEG);
+        }
+        "theta_external_deg" if head != "pump" => {
+          b.set_theta_external(v * DEG, &crystal);
+        }
+        "phi_deg" if head != "pump" => {
+          b.set_phi(v * DEG);
+        }
+        "frequency_thz" => {
+          b.set_vacuum_wavelength(299792458. / (v * 1e12) * M);
+        }
+        "wavelength_nm" => {
+          b.set_vacuum_wavelength(v * 1e-9 * M);
+        }
+        "waist_um" => {
+          b.set_waist(v * 1e-6 * M);
+        }
+        _ => return false,
+      }
+    }
+    _ => return false,
+  }
+  true
+}
+
+fn readbacks(s: &SPDC) -> Value {
+  let s1 = s.clone();
+  let s2 = s.clone();
+  let s3 = s.clone();
+  let es = guarded(move || *(s1.signal.theta_external(&s1.crystal_setup) / DEG)).ok();
+  let ei = guarded(move || *(s2.idler.theta_external(&s2.crystal_setup) / DEG)).ok();
+  let sg = guarded(move || PeriodicPoling::compute_sign(&s3.signal, &s3.pump, &s3.crystal_setup)).ok();
+  let pp = match &s.pp {
+    PeriodicPoling::Off => json!({"on": false}),
+    PeriodicPoling::On { period, sign, .. } => json!({"on": true, "period_m": fx(*(*period / M)), "sign": if *sign == Sign::POSITIVE { "POSITIVE" } else { "NEGATIVE" }}),
+  };
+  json!({"signal_theta_external_deg": es.map(fx), "idler_theta_external_deg": ei.map(fx),
+    "computed_sign": sg.map(|x| if x == Sign::POSITIVE { "POSITIVE" } else { "NEGATIVE" }), "pp": pp})
+}
+
 fn jsi_of(spdc: &SPDC) -> f64 {
   // the expression of SPDCIter::jsi_values, on one setup
   let jsi = jsa_raw(spdc.signal.frequency(), spdc.idler.frequency(), spdc, Integrator::default()).norm_sqr();
@@ -141,11 +212,15 @@ fn values_for(path: &str, rng: &mut Rng, n: usize) -> Vec<f64> {
   let (lo, hi, fixed): (f64, f64, Vec<f64>) = if path.ends_with("theta_external_deg") {
     (0., 12., vec![0., 1.5, 5.])
   } else if path.starts_with("crystal.") && path.ends_with("theta_deg") {
-    (0., 90., vec![0., 45., 90.])
+    (0., 90., vec![0., 45., 90., 180., -0.0])
   } else if path.ends_with("theta_deg") {
-    (-20., 20., vec![0., 2.5, -3.25, 179.5])
+    // incl. the ends of the documented range (-180, 180] and values that wrap
+    (-20., 20., vec![0., 2.5, -3.25, 179.5, 90., 180., -180., 360., -360., -0.0, 270.])
+  } else if path.starts_with("crystal.") && path.ends_with("phi_deg") {
+    (0., 359.9, vec![0., 90., 180., 270.5, -0.0])
   } else if path.ends_with("phi_deg") {
-    (0., 359.9, vec![0., 90., 180., 270.5])
+    // documented range [0, 360)
+    (0., 359.9, vec![0., 90., 180., 270.5, 360., -180., -90., -0.0, 720.5])
   } else if path.ends_with("length_um") {
     (100., 30000., vec![500., 10000.])
   } else if path.ends_with("temperature_c") {
@@ -258,24 +333,44 @@ pub fn run(args: &[String]) {
     ("pump.bandwidth_nm", "crystal.length_um", (0.5, 6.), (500., 4000.)),
     ("signal.theta_deg", "idler.theta_deg", (0., 3.), (0., 3.)),
     ("pump.average_power_mw", "pump.waist_um", (1., 100.), (50., 200.)),
+    // pairs that do not commute: the second setter reads what the first one wrote (Snell against the swept crystal / wavelength,
+    // poling sign from the swept wavelengths); the dependent parameter is always the SECOND one
+    ("crystal.theta_deg", "signal.theta_external_deg", (25., 85.), (1., 4.)),
+    ("crystal.phi_deg", "idler.theta_external_deg", (0., 90.), (0.5, 3.)),
+    ("crystal.temperature_c", "signal.theta_external_deg", (20., 180.), (2., 6.)),
+    ("signal.wavelength_nm", "signal.theta_external_deg", (800., 1700.), (1., 5.)),
+    ("pump.wavelength_nm", "periodic_poling.poling_period_um", (500., 700.), (5., 40.)),
+    ("signal.wavelength_nm", "periodic_poling.poling_period_um", (1000., 2000.), (5., 40.)),
+    ("crystal.theta_deg", "idler.theta_external_deg", (20., 90.), (0.5, 5.)),
+    ("crystal.temperature_c", "periodic_poling.poling_period_um", (20., 150.), (5., 40.)),
   ];
   let shapes: [(usize, usize); 8] = [(3, 2), (1, 4), (4, 1), (2, 2), (1, 1), (5, 3), (2, 5), (3, 3)];
-  for k in 0..nsweeps {
-    let (p1, p2, r1, r2) = pairs[k % pairs.len()];
-    let (nx, ny) = shapes[(k + rng.below(8)) % 8];
-    let (bname, base) = &bases[k % bases.len()];
+  // the 8 non-commuting pairs always run (on a base with an extraordinary signal where possible), small shapes
+  let nplain = 8usize;
+  let total = nsweeps + (pairs.len() - nplain) * 2;
+  for kk in 0..total {
+    let (k, fixed_nc) = if kk < nsweeps { (kk, false) } else { (kk - nsweeps, true) };
+    let (p1, p2, r1, r2) = if fixed_nc { pairs[nplain + k % (pairs.len() - nplain)] } else { pairs[k % pairs.len()] };
+    let (nx, ny) = if fixed_nc { [(2usize, 2usize), (3, 2)][(k / (pairs.len() - nplain)) % 2] } else { shapes[(k + rng.below(8)) % 8] };
+    let (bname, base) = if fixed_nc { &bases[(1 + k + k / (pairs.len() - nplain)) % bases.len()] } else { &bases[k % bases.len()] };
     let steps = Steps2D((r1.0, r1.1, nx), (r2.0, r2.1, ny));
-    let it = match SPDCIter::try_new(base.clone(), p1, p2, steps) {
-      Ok(i) => i,
-      Err(e) => {
+    // a panic inside a setter (e.g. the poling-sign search on a wavelength combination without a solution) is reported, not propagated
+    let b00 = base.clone();
+    let setups: Vec<SPDC> = match guarded(move || SPDCIter::try_new(b00, p1, p2, steps).map(|it| it.into_iter().collect::<Vec<SPDC>>())) {
+      Ok(Ok(v)) => v,
+      Ok(Err(e)) => {
         emit(json!({"kind": "sweep_err", "p1": p1, "p2": p2, "err": e}));
         continue;
       }
+      Err(e) => {
+        emit(json!({"kind": "sweep_panic", "base": bname, "p1": p1, "p2": p2, "msg": e}));
+        continue;
+      }
     };
-    let setups: Vec<SPDC> = it.into_iter().collect();
-    let with_jsi = k < 4;
+    let with_jsi = k < 4 && !fixed_nc;
     let swept_jsi: Vec<f64> = if with_jsi {
-      SPDCIter::try_new(base.clone(), p1, p2, steps).map(|i| i.jsi_values(Integrator::default())).unwrap_or_default()
+      let b0 = base.clone();
+      guarded(move || SPDCIter::try_new(b0, p1, p2, steps).map(|i| i.jsi_values(Integrator::default())).unwrap_or_default()).unwrap_or_default()
     } else {
       Vec::new()
     };
@@ -298,12 +393,28 @@ pub fn run(args: &[String]) {
     for (j, s) in setups.iter().enumerate() {
       // individually constructed: each parameter set on its own single-point sweep
       let (v1, v2) = if j < grid.len() { grid[j] } else { (f64::NAN, f64::NAN) };
-      let indiv = single(base, p1, v1).and_then(|s1| single(&s1, p2, v2));
+      let bb = base.clone();
+      let indiv = guarded(move || single(&bb, p1, v1).and_then(|s1| single(&s1, p2, v2))).unwrap_or_else(|e| Err(e));
       let (icfg, ijsi, same) = match &indiv {
         Ok(x) => (flat_config(x), if with_jsi { fx(jsi_of(x)) } else { Value::Null }, *x == *s),
         Err(_) => (Value::Null, Value::Null, false),
       };
+      // built from the base through the public API in the property's units: first parameter, then the second
+      let mut scratch = base.clone();
+      let b1 = base.clone();
+      let scratch_cfg = match guarded(move || {
+        let mut t = b1;
+        let ok = spec_apply(&mut t, p1, v1) && spec_apply(&mut t, p2, v2);
+        (t, ok)
+      }) {
+        Ok((t, true)) => {
+          scratch = t;
+          flat_config(&scratch)
+        }
+        _ => Value::Null,
+      };
       items.push(json!({"j": j, "v1": fx(v1), "v2": fx(v2), "cfg": flat_config(s), "indiv_cfg": icfg, "indiv_jsi": ijsi, "identical": same,
+        "scratch_cfg": scratch_cfg, "read": readbacks(s),
         "jsi": if with_jsi && j < swept_jsi.len() { fx(swept_jsi[j]) } else { Value::Null },
         "jsi_norm": if j < swept_norm.len() { fx(swept_norm[j]) } else { Value::Null }}));
     }
